@@ -133,6 +133,17 @@ CHECKS = [
          note='Trusted: the rebuild operator and the C01 symmetry oracle / MCB oracle used to skip values that legitimately depend '
               'on the perceived ring set or fall in documented canonicalisation gaps (counted).',
          technique='model-based (stateful) property-based testing with an independent rebuild as reference model'),
+    dict(id='C14',
+         text='Generated valence-valid molecules (corpus, curated, constructive without exotic ions, documented rule spellings grafted '
+              'in) under a drawn rebuild/renumbering x drawn operations (standardize, canonicalize, fix_resonance, neutralize, '
+              'standardize_charges, explicify/implicify, enumerate_tautomers): conservation of heavy atoms / charge / hydrogens '
+              '(neutralize balanced), no valence error or exception, idempotence, explicify-implicify inverse, numbering '
+              'independence, tautomer-set properties; all 122 documented (spelling, canonical spelling) pairs of the rule tests, '
+              'also under two renumberings, with fired rule indices recorded.',
+         note='Trusted: canonical strings for numbering independence (C01 gaps skipped); documented pairs are read from the '
+              'repository\'s own rule tests with ast. Rule instances/grafted spellings are only held to heavy-atom conservation, '
+              'idempotence and numbering independence because the tables correct hydrogens/charges of mis-spellings on purpose.',
+         technique='property-based invariant / idempotence / metamorphic (renumbering) testing plus table-driven documented pairs'),
     dict(id='C15',
          text='Reactions are generated with a known ground truth: reactant-side molecules plus a drawn list of edits (bond order '
               'change / formed / cleaved, charge, radical, atom leaving / joining) give the product side, 0-2 reagents, empty '
